@@ -343,10 +343,11 @@ func runCheck(id, tier, only string, workers int, verbose bool) int {
 				res := getRunner(j.h.Pkg).run([]string{recPath})
 				// replays of recorded schedules and timer firings pause real goroutines for fixed
 				// times: on a loaded machine a pause can be too short. A run that passed is
-				// repeated (twice at most) with pauses three times as long before the model is
+				// repeated (three times at most) with pauses three, three and ten times as long before the model is
 				// declared non-reproducing
-				for attempt := 0; attempt < 2 && len(res) == 1 && res[0].Crashed == "" && (res[0].Panic == "" || res[0].Panic == "<nil>") && len(res[0].Failed) == 0 && len(res[0].KnownFailed) == 0 && res[0].Rejected == ""; attempt++ {
-					os.Setenv("VERIF_SLOW", "3")
+				for attempt := 0; attempt < 3 && len(res) == 1 && res[0].Crashed == "" && (res[0].Panic == "" || res[0].Panic == "<nil>") && len(res[0].Failed) == 0 && len(res[0].KnownFailed) == 0 && res[0].Rejected == ""; attempt++ {
+					// 3x, 3x, then 10x longer pauses
+					os.Setenv("VERIF_SLOW", []string{"3", "3", "10"}[attempt])
 					res = getRunner(j.h.Pkg).run([]string{recPath})
 					os.Unsetenv("VERIF_SLOW")
 				}
